@@ -19,6 +19,8 @@ func checkC06(c *Ctx) {
 	c.Rule("C06-R3", "Fini only runs finish through sync.Once; finish has no other caller; the quit channel has exactly one closer")
 	c.Rule("C06-R4", "a field tested to make the screen inert is set on the shutdown path (a guard that is never written is dead)")
 	c.Rule("C06-R5", "PollEvent/PostEventWait/ChannelEvents: every blocking operation has a StopQ alternative; PollEvent returns nil on it")
+	c.Rule("C06-R7", "what the API methods dereference without a nil test stays in place after Fini: the Tty and Terminfo of a screen are stored (non-nil) by its constructor or Init only")
+	c.Expect("C06-R7", 2)
 	c.Rule("C06-R6", "what disengage dismantles, engage re-establishes on every successful path: the resize callback (NotifyResize with a function that pokes the queue the main loop reads), a fresh stop channel shared with both loops, and Tty.Start")
 	c.Expect("C06-R6", 4)
 	c.Expect("C06-R1", 6)
@@ -48,6 +50,29 @@ func checkC06(c *Ctx) {
 		c06Guards(c, p)
 		c06Poll(c, p, "C06-R5")
 		c06Reengage(c, p)
+		for _, f := range []string{"tty", "ti"} {
+			ws := []string{}
+			for _, fn := range p.modFns {
+				if fn.Pkg != p.Tcell {
+					continue
+				}
+				for _, st := range storesTo(fn, "tcell.tScreen", f) {
+					w := fn.Name()
+					if isNilConst(st.Val) {
+						w += "(nil)"
+					}
+					ws = append(ws, w)
+				}
+			}
+			ok := len(ws) > 0
+			for _, w := range ws {
+				// the constructor, or Init's platform hook that opens the default tty
+				if !(strings.HasPrefix(w, "New") || w == "initialize" || w == "Init") || strings.HasSuffix(w, "(nil)") {
+					ok = false
+				}
+			}
+			c.Check(ok, "C06-R7", "tScreen."+f+":set-by-constructor-only", "-", fmt.Sprintf("stores to t.%s: %v (methods such as Beep, SetSize, EnableMouse use it unconditionally, also after Fini)", f, ws))
+		}
 	}
 }
 
